@@ -62,6 +62,7 @@ type gInst struct {
 	lifetime context.Context
 	cancel   context.CancelFunc
 	started  bool
+	startOK  bool // ShardManager.Start has returned (ClusterConnection.Start calls it before any server accepts streams)
 	left     bool
 	claims   map[ShardID]*gClaim
 	history  map[ShardID][]*gClaim
@@ -330,7 +331,7 @@ func (w *GossipWorld) Actions() []simrt.Action {
 		if !in.started {
 			add("start:"+in.name, 8, false, func() {
 				in.started = true
-				w.task("start:"+in.name, func() { _ = in.sm.Start(in.lifetime) })
+				w.task("start:"+in.name, func() { _ = in.sm.Start(in.lifetime); in.startOK = true })
 			})
 		}
 	}
@@ -351,7 +352,7 @@ func (w *GossipWorld) Actions() []simrt.Action {
 	// property speaks about instances that know each other)
 	formed := len(live) >= 2
 	for _, in := range w.inst {
-		if !in.started {
+		if !in.started || (!in.startOK && !in.left) {
 			formed = false
 		}
 	}
@@ -385,7 +386,7 @@ func (w *GossipWorld) Actions() []simrt.Action {
 					// "newest" is unambiguous both by registration and by announcement timestamp
 					busy := false
 					for _, o := range w.inst {
-						if oc := o.claims[sh]; oc != nil && oc.active && !oc.ready {
+						if oc := o.claims[sh]; oc != nil && !oc.ready && !o.left {
 							busy = true
 						}
 					}
@@ -516,13 +517,17 @@ func (w *GossipWorld) checkConvergence() {
 	}
 	for _, sh := range w.shards() {
 		k := sidStr(sh)
-		// The latest claim of the shard (by registration time, over all instances, live or not)
-		// supersedes every earlier one: the cluster's stream for that shard moved there. If that
-		// claim is still active on a live instance it must be the sole owner; otherwise nobody
-		// may own the shard.
+		// The latest claim of the shard (by registration time) supersedes every earlier one: the
+		// cluster's stream moved there. Among the instances that are still members, the latest
+		// claim - if still active - must be the sole owner, otherwise nobody owns the shard.
+		// A claim by an instance that has meanwhile left may or may not have been announced before
+		// it went (the announcement is sent asynchronously), so when such a claim is newer than
+		// the newest live one, both outcomes are accepted: the live claimant kept the shard, or
+		// it was evicted and nobody owns it.
 		var newest *gInst
 		var newestCl *gClaim
 		var newestAt time.Duration = -1
+		var departedAt time.Duration = -1
 		nClaim := 0
 		for _, in := range w.inst {
 			for _, cl := range in.history[sh] {
@@ -531,12 +536,18 @@ func (w *GossipWorld) checkConvergence() {
 				}
 				nClaim++
 				at := time.Duration(cl.regAt.UnixNano())
+				if in.left || !in.started {
+					if at > departedAt {
+						departedAt = at
+					}
+					continue
+				}
 				if at > newestAt {
 					newest, newestCl, newestAt = in, cl, at
 				}
 			}
 		}
-		if newest != nil && (!newestCl.active || newest.left || !newest.started) {
+		if newest != nil && !newestCl.active {
 			newest = nil
 		}
 		var owners []string
@@ -546,6 +557,9 @@ func (w *GossipWorld) checkConvergence() {
 			}
 		}
 		sort.Strings(owners)
+		if departedAt > newestAt && len(owners) == 0 {
+			continue // evicted by the departed instance's newer claim
+		}
 		if newest == nil {
 			if len(owners) > 0 {
 				w.violate("C09", "phantom-owner", "shard %s: its latest claim has ended (released or its instance left) but it is still owned by %v", k, owners)
@@ -553,7 +567,7 @@ func (w *GossipWorld) checkConvergence() {
 			continue
 		}
 		if len(owners) != 1 || owners[0] != newest.name {
-			w.violate("C09", "not-converged", "shard %s: %d live instances claimed it, newest claim by %s (at %v); after every announcement was delivered and two rounds of all-pairs state merges it is owned by %v", k, nClaim, newest.name, newestAt, owners)
+			w.violate("C09", "not-converged", "shard %s: %d claims, newest live claim by %s (at %v); after every announcement was delivered and two rounds of all-pairs state merges it is owned by %v", k, nClaim, newest.name, newestAt, owners)
 			continue
 		}
 		for _, in := range w.liveInst() {
